@@ -63,39 +63,124 @@ def _ground_terms(es, want_sorts, limit):
 
 
 def _split_hyps(hyps):
+    """-> (quantifier-free facts, universally quantified facts); implications whose antecedent is an
+    asserted literal are resolved first so guarded quantified hypotheses become usable"""
     work, qf, qs = list(hyps), [], []
+    asserted = set()
+    for h in hyps:
+        if z3.is_const(h) and h.decl().kind() == z3.Z3_OP_UNINTERPRETED:
+            asserted.add(h.get_id())
+    pending = []
     while work:
         h = work.pop()
         if z3.is_and(h):
             work.extend(h.children())
         elif z3.is_quantifier(h) and h.is_forall():
             qs.append(h)
-        elif z3.is_implies(h) and z3.is_quantifier(h.arg(1)) and h.arg(1).is_forall():
-            qf.append(h)        # guarded quantifier: left to the solver
+        elif z3.is_implies(h):
+            a = h.arg(0)
+            if a.get_id() in asserted or z3.is_true(a):
+                work.append(h.arg(1))
+            else:
+                pending.append(h)
         else:
+            if z3.is_const(h) and z3.is_bool(h):
+                if h.get_id() not in asserted:
+                    asserted.add(h.get_id())
+                    still = []
+                    for p in pending:
+                        if p.arg(0).get_id() == h.get_id():
+                            work.append(p.arg(1))
+                        else:
+                            still.append(p)
+                    pending = still
             qf.append(h)
+    qf.extend(pending)
     return qf, qs
+
+
+def _snf(formulas):
+    """skolem normal form: existentials in hypotheses (and under universals) become skolem functions, so the
+    remaining quantifiers are universal and can be instantiated"""
+    g = z3.Goal()
+    for f in formulas:
+        g.add(f)
+    try:
+        r = z3.Then(z3.Tactic('simplify'), z3.Tactic('snf'))(g)
+        out = []
+        for sub in r:
+            out.extend(list(sub))
+        return out
+    except z3.Z3Exception:
+        return list(formulas)
+
+
+def _has_exists(f, depth=0):
+    s = f.sexpr() if depth == 0 else ''
+    return '(exists ' in s
+
+
+def _frame_arrays(es, sorts):
+    """array constants Int -> S for uninterpreted sorts S among the quantified sorts"""
+    out, seen = {}, set()
+    want = {n for n, srt in sorts.items() if srt.kind() == z3.Z3_UNINTERPRETED_SORT}
+    if not want:
+        return out
+
+    def walk(e):
+        if e.get_id() in seen:
+            return
+        seen.add(e.get_id())
+        if z3.is_quantifier(e):
+            walk(e.body())
+            return
+        if z3.is_const(e) and z3.is_array(e) and e.decl().kind() == z3.Z3_OP_UNINTERPRETED:
+            if e.sort().range().name() in want and e.sort().domain() == z3.IntSort():
+                out.setdefault(e.sort().range().name(), []).append(e)
+        for c in e.children():
+            walk(c)
+    for e in es:
+        walk(e)
+    return out
 
 
 def instantiate(hyps, goal, rounds=1, max_terms=12, extra=()):
     g, sk = skolemize(goal)
-    qf, qs = _split_hyps(hyps)
-    facts = list(qf) + [z3.Not(g)]
-    sorts = {}
-    for q in qs:
-        for k in range(q.num_vars()):
-            sorts[q.var_sort(k).name()] = q.var_sort(k)
-    insts = []
+    pre = _snf(list(hyps) + [z3.Not(g)])
+    qf, qs = _split_hyps(pre)
+    facts = list(qf)
+    if len(qs) <= 12:
+        max_terms = max(max_terms, 26)       # small (local) proofs: saturate generously
+    # index candidates next to the goal's skolem constants (array-property-fragment index set: t, t+1, t-1)
+    offs = []
+    for c in sk:
+        if z3.is_int(c):
+            offs += [c + 1, c - 1]
+    inst_qf = []
+    seen_q = {q.get_id() for q in qs}
+    done = set()
     for r in range(rounds):
-        terms = _ground_terms(facts + insts, list(sorts.values()), max_terms)
-        for e in extra:
+        sorts = {}
+        for q in qs:
+            for k in range(q.num_vars()):
+                sorts[q.var_sort(k).name()] = q.var_sort(k)
+        goal_first = [z3.Not(g)]
+        arrs = _frame_arrays(facts + qs, sorts)
+        terms = _ground_terms(goal_first + facts + inst_qf, list(sorts.values()), max_terms + 6 * r)
+        for e in list(extra) + offs:
             sn = e.sort().name()
             if sn in terms and all(not z3.eq(e, t) for t in terms[sn]):
                 terms[sn].append(e)
         if 'Int' in terms:
             terms['Int'] = terms['Int'] + [z3.IntVal(0)]
+        for sn, alist in arrs.items():
+            for a in alist:
+                for t in terms.get('Int', [])[:max_terms]:
+                    e = a[t]
+                    if all(not z3.eq(e, x) for x in terms.setdefault(sn, [])) and len(terms[sn]) < max_terms + 6:
+                        terms[sn].append(e)
         new = []
-        for q in qs:
+        for q in list(qs):
             cands = [terms.get(q.var_sort(k).name(), []) for k in range(q.num_vars())]
             total = 1
             for c in cands:
@@ -103,9 +188,19 @@ def instantiate(hyps, goal, rounds=1, max_terms=12, extra=()):
             if total > 4000:
                 cands = [c[:max(2, int(4000 ** (1.0 / len(cands))))] for c in cands]
             for tup in itertools.product(*cands):
+                key = (q.get_id(),) + tuple(t.get_id() for t in tup)
+                if key in done:
+                    continue
+                done.add(key)
                 new.append(z3.substitute_vars(q.body(), *reversed(tup)))
-        insts = new
-    return facts + insts
+        # instances may themselves be (nested) universals: split them again
+        nqf, nqs = _split_hyps(new)
+        inst_qf += nqf
+        for q in nqs:
+            if q.get_id() not in seen_q:
+                seen_q.add(q.get_id())
+                qs.append(q)
+    return facts + inst_qf
 
 
 def _check(assertions, timeout_ms, tactic=None):
@@ -132,14 +227,15 @@ def decide(axioms, vc, budget_s, pins=None, want=None, strategies=('inst', 'z3',
     t0 = time.time()
     hyps = list(axioms) + list(vc.hyps)
     res = {'status': 'unknown', 'by': None, 'tried': []}
+    reserve = 0.25 * budget_s if pins else 0.0
     for strat in strategies:
-        left = budget_s - (time.time() - t0)
+        left = budget_s - reserve - (time.time() - t0)
         if left < 0.3:
             break
         try:
-            if strat in ('inst', 'inst2'):
-                facts = instantiate(hyps, vc.goal, rounds=1 if strat == 'inst' else 2,
-                                    max_terms=10 if strat == 'inst' else 8, extra=vc.hints)
+            if strat in ('inst', 'inst2', 'inst3'):
+                rounds, mt = {'inst': (1, 10), 'inst2': (2, 12), 'inst3': (3, 10)}[strat]
+                facts = instantiate(hyps, vc.goal, rounds=rounds, max_terms=mt, extra=vc.hints)
                 r, s = _check(facts, left * 1000 * (0.4 if strat == 'inst' else 0.9))
                 res['tried'].append((strat, r, round(time.time() - t0, 3)))
                 if r == 'unsat':
@@ -242,9 +338,42 @@ def run_pool(jobs, nproc=16, hard_timeout=30):
     return results
 
 
-def discharge(vcs, axioms, budget_s=10, nproc=16, pins=None, want=None):
+def discharge(vcs, axioms, budget_s=10, nproc=16, pins=None, want=None, retry_factor=6):
+    """pass 1: every VC with the normal budget; pass 2: the undecided ones again with retry_factor x budget
+    (exact query first), so that slow-but-provable obligations do not flip under load"""
     jobs = []
     for k, vc in enumerate(vcs):
         jobs.append((k, (lambda vc=vc: decide(axioms, vc, budget_s, pins, want))))
     res = run_pool(jobs, nproc=nproc, hard_timeout=budget_s * 1.5 + 5)
-    return [res[k] for k in range(len(vcs))]
+    out = [res[k] for k in range(len(vcs))]
+    again = [k for k, r in enumerate(out) if r.get('status') not in ('unsat', 'sat')]
+    if again and retry_factor > 1:
+        b2 = budget_s * retry_factor
+        jobs = [(k, (lambda vc=vcs[k]: decide(axioms, vc, b2, pins, want, strategies=('z3', 'inst2', 'inst3')))) for k in again]
+        res2 = run_pool(jobs, nproc=nproc, hard_timeout=b2 * 1.3 + 5)
+        for k in again:
+            r2 = res2[k]
+            r2['tried'] = (out[k].get('tried') or []) + [('retry', 'x%d budget' % retry_factor, 0)] + (r2.get('tried') or [])
+            r2['secs'] = round((out[k].get('secs') or out[k].get('wall') or 0) + (r2.get('secs') or r2.get('wall') or 0), 3)
+            out[k] = r2
+    return out
+
+
+def cover(vcs, axioms, pins, budget_s=5, nproc=16):
+    """reachability / non-vacuity: are the hypotheses of these VCs satisfiable (with pinned sizes)?"""
+    def job(vc):
+        out = 'unknown'
+        for pin in (pins or [[]]):
+            try:
+                r, s = _check(list(axioms) + list(vc.hyps) + list(pin), budget_s * 1000 / max(1, len(pins or [1])))
+            except z3.Z3Exception:
+                continue
+            if r == 'sat':
+                return {'status': 'sat'}
+            if r == 'unsat' and not pin:
+                return {'status': 'unsat'}
+            if r == 'unsat':
+                out = 'unsat-pinned'
+        return {'status': out}
+    res = run_pool([(k, (lambda vc=vc: job(vc))) for k, vc in enumerate(vcs)], nproc=nproc, hard_timeout=budget_s + 5)
+    return [res[k].get('status') for k in range(len(vcs))]
